@@ -36,11 +36,21 @@ Definition is_panic {A} (x : out A) : bool :=
 Definition is_ok {A} (x : out A) : bool :=
   match x with Ok _ => true | _ => false end.
 
-Fixpoint mapM {A B} (f : A -> out B) (l : list A) : out (list B) :=
-  match l with
-  | [] => Ok []
-  | x :: xs => do y <- f x; do ys <- mapM f xs; Ok (y :: ys)
-  end.
+(* f is kept outside the fix so that nested recursive calls through mapM pass the guard check *)
+Definition mapM {A B} (f : A -> out B) : list A -> out (list B) :=
+  fix go (l : list A) : out (list B) :=
+    match l with
+    | [] => Ok []
+    | x :: xs => match f x with
+                 | Ok y => match go xs with
+                           | Ok ys => Ok (y :: ys)
+                           | Err k => Err k
+                           | Panic s => Panic s
+                           end
+                 | Err k => Err k
+                 | Panic s => Panic s
+                 end
+    end.
 
 (* ---- characters ---- *)
 Definition c (n : N) : chr := n.
